@@ -133,6 +133,9 @@ def menu(f, with_queries=False, full=True):
         num = _numeric_along(vars_, 'x')
         lens_ok = all(all(dims[x] >= 1 for x in vd) for vd, dt in vars_.values())
         add('interpDimension', mono and num and lens_ok, dim='x')
+    if isio and 'LAY' in dims and dims['LAY'] >= 1 and hasattr(f, 'VGLVLS') and \
+            np.atleast_1d(f.VGLVLS).size == dims['LAY'] + 1 and type(f).__name__ != 'uamiv':
+        add('interpSigma', True, vglvls=[1., .5, 0.], vgtop=4000.)
     add('from_ncf', True)
     if full:
         add('getvarpnc', True)
@@ -198,6 +201,9 @@ def do_op(f, op):
         xv = np.asarray(f.variables[op['dim']][...], dtype='d')
         mids = (xv[:-1] + xv[1:]) / 2.
         return f.interpDimension(op['dim'], mids)
+    if name == 'interpSigma':
+        return f.interpSigma(np.array(op['vglvls'], dtype='f'), vgtop=op.get('vgtop'),
+                             interptype='linear')
     if name == 'from_ncf':
         from PseudoNetCDF.cmaqfiles._ioapi import ioapi_base
         if isinstance(f, ioapi_base):
